@@ -7,6 +7,7 @@ variable {K : Type} [Scalar K] [Codec K]
 def opsKernel (op : String) : Option (Rd String) :=
   match op with
   -- vec2 / point
+  | "vec.hypot" => some do let a : Vec2 K ← vec; return s!"{e a.hypot} {e a.hypot2} {e a.atan2}"
   | "vec.dot" => some do let a : Vec2 K ← vec; let b ← vec; return e (a.dot b)
   | "vec.cross" => some do let a : Vec2 K ← vec; let b ← vec; return e (a.cross b)
   | "vec.lerp" => some do let a : Vec2 K ← vec; let b ← vec; let t : K ← num; return eVec (a.lerp b t)
